@@ -222,6 +222,46 @@ OPTSETS = [[], ['-empty'], ['-memory-encoding', 'l_vars'], ['-order-bounds'], ['
            ['-no-output-before-pop'], ['-order-conflicts'], ['-pop-uninterpreted'], ['-empty', '-order-bounds', '-memory-encoding', 'direct'],
            ['-term-encoding', 'uninterpreted_uf'], ['-term-encoding', 'uninterpreted_int']]
 
+def pairwise_optsets(seed=5):
+    """option sets of the hard-constraint options such that every pair of values of two different options occurs in some set
+    (greedy covering array, deterministic).  -push-basic is left out: its encodings are a known, unexercised problem (DESIGN 9.3)"""
+    import itertools
+    import random
+    dims = [('-memory-encoding', ['direct', 'l_vars']), ('-pop-uninterpreted', [0, 1]), ('-order-bounds', [0, 1]), ('-empty', [0, 1]),
+            ('-term-encoding', ['uninterpreted_uf', 'int', 'stack_vars', 'uninterpreted_int']), ('-at-most', [0, 1]), ('-pushed-once', [0, 1]),
+            ('-no-output-before-pop', [0, 1]), ('-order-conflicts', [0, 1])]
+    pairs = set()
+    for (i, (_, va)), (j, (_, vb)) in itertools.combinations(enumerate(dims), 2):
+        pairs |= set((i, x, j, y) for x in va for y in vb)
+    rnd = random.Random(seed)
+    rows = []
+    while pairs:
+        best = None
+        for _ in range(300):
+            row = [rnd.choice(v) for _, v in dims]
+            cov = sum(1 for (i, x, j, y) in pairs if row[i] == x and row[j] == y)
+            if best is None or cov > best[0]:
+                best = (cov, row)
+        rows.append(best[1])
+        pairs = set(p for p in pairs if not (best[1][p[0]] == p[1] and best[1][p[2]] == p[3]))
+    out = []
+    for row in rows:
+        o = []
+        for (name, vals), v in zip(dims, row):
+            if v in (0, 1):
+                o += [name] if v else []
+            elif v != vals[0]:
+                o += [name, v]
+        if o not in out and o not in OPTSETS:
+            out.append(o)
+    return out
+
+
+PAIRWISE = pairwise_optsets()
+# blocks on which the pairwise option sets are run in the quick tier: stores before value producers, pops, loads, plain arithmetic
+PAIRWISE_BLOCKS = ["SSTORE PUSH 1 DUP1", "PUSH 1 SWAP1 SSTORE", "MSTORE PUSH 1 DUP1 ADD", "SWAP1 POP PUSH 0 MSTORE8", "DUP2 DUP2 SSTORE SLOAD", "POP POP",
+                   "DUP2 ADD", "SLOAD SWAP2 SSTORE", "DUP1 MLOAD SWAP1 POP", "PUSH 0 ADD"]
+
 SMALL_BLOCKS = ["PUSH 0 ADD", "PUSH 1 MUL", "DUP1 POP", "SWAP2 SWAP1 SWAP3 SSTORE SSTORE", "SWAP2 SWAP1 SWAP3 MSTORE MSTORE", "DUP2 ADD", "DUP2 MUL SWAP1 POP", "SLOAD SWAP2 SSTORE", "MLOAD SWAP2 MSTORE", "SUB", "SWAP1 SUB", "DUP1 MLOAD SWAP1 POP",
                 "PUSH 1 ADD", "POP POP", "DUP2 DUP2 SSTORE SLOAD", "DUP2 DUP2 MSTORE MLOAD ADD", "SWAP1 DUP2 SSTORE PUSH 7 SWAP1 SSTORE",
                 "PUSH 0 SLOAD PUSH 1 ADD PUSH 0 SSTORE", "DUP1 DUP1 ADD ADD", "CALLER DUP1 AND", "SWAP2 SWAP1 SUB MUL", "PUSH 0 MLOAD PUSH 20 MSTORE",
@@ -259,10 +299,11 @@ class ModelsRealize(NativeCase):
         n_models = n_enc = complete = 0
         no_model = []
         front_end_failed = []
-        for b in SMALL_BLOCKS:
+        extra = [b for b in PAIRWISE_BLOCKS if b not in SMALL_BLOCKS]
+        for b in SMALL_BLOCKS + extra:
             toks = corpus.tokens(b)
             specs = {}
-            for opts in optsets:
+            for opts in optsets + (PAIRWISE if (tier != 'quick' or b in PAIRWISE_BLOCKS) else []):
                 # the specification is produced by the front end under the same options, as the tool does
                 # (-pop-uninterpreted and -push-basic change the instructions a specification names)
                 fe = ('-pop-uninterpreted' in opts, '-push-basic' not in opts)
@@ -344,8 +385,10 @@ class ModelsRealize(NativeCase):
         # vacuity guard: the clause "every model decodes ..." must have been exercised on most encodings
         self.ob('model enumeration is not vacuous (at least 9 of 10 encodings have a model)', n_enc > 0 and len(no_model) * 10 <= n_enc,
                 inputs=dict(encodings=n_enc, without_model=no_model[:5]))
-        self.assumptions = ("bounded: %d encodings (blocks with init_progr_len <= 6 x %d option sets), %d models enumerated (cap %d per encoding; "
-                            "%d encodings enumerated completely), z3 python API as the solver" % (n_enc, len(optsets), n_models, cap, complete),
+        self.assumptions = ("bounded: %d encodings (blocks with init_progr_len <= 6 x %d option sets, plus %d option sets that cover every pair of values of "
+                            "two hard-constraint options - -push-basic excluded - on %s), %d models enumerated (cap %d per encoding; "
+                            "%d encodings enumerated completely), z3 python API as the solver"
+                            % (n_enc, len(optsets), len(PAIRWISE), "%d blocks" % len(PAIRWISE_BLOCKS) if tier == 'quick' else "all blocks", n_models, cap, complete),
                             "%d (block, option set) pairs for which the front end itself fails under the option (e.g. -pop-uninterpreted on "
                             "blocks with POP: KeyError in the position bounds, contained by the drivers) and %d encodings without any model are "
                             "not counted: satisfiability is decided under C07" % (len(front_end_failed), len(no_model)))
